@@ -109,6 +109,10 @@ type RecTransport struct {
 	wdl             time.Time
 	skew            time.Duration
 
+	// DeadlineErr, if set, is returned by SetWriteDeadline/SetDeadline for a non-zero time (a transport that does not
+	// support deadlines); clearing the deadline (zero time) succeeds.
+	DeadlineErr error
+
 	// CloseErr is returned by the Close call that actually closes (a transport may report a failed goodbye,
 	// e.g. TLS close_notify on a broken pipe, and still be closed).
 	CloseErr error
@@ -376,6 +380,9 @@ func (t *RecTransport) RemoteAddr() net.Addr            { return Addr("mock-remo
 func (t *RecTransport) SetDeadline(d time.Time) error   { return t.SetWriteDeadline(d) }
 func (t *RecTransport) SetReadDeadline(time.Time) error { return nil }
 func (t *RecTransport) SetWriteDeadline(d time.Time) error {
+	if t.DeadlineErr != nil && !d.IsZero() {
+		return t.DeadlineErr
+	}
 	t.mu.Lock()
 	t.wdl = d
 	t.mu.Unlock()
